@@ -935,7 +935,10 @@ func (e *Exec) appendOp(ins ssa.Instruction, c *ssa.CallCommon, args []Value, st
 	}
 	newLen := Add(s.Len, addLen)
 	// total length must stay representable
-	e.safe("append", st, And(Le(s.Len, newLen), Le(newLen, ConstI(maxAddr, I64))), ins.Pos())
+	e.safe("append", st, Le(s.Len, newLen), ins.Pos())
+	// allocation succeeds, hence no slice is ever longer than 2^47 elements
+	e.ctx.assume(Imp(st.pc, Le(newLen, ConstI(maxAddr, I64))))
+	e.ctx.assumes["allocation succeeds: no slice grows beyond 2^47 elements"]++
 	fits := Le(newLen, s.Cap)
 	// growth: a fresh array of some capacity >= newLen
 	newCap := Fresh("append.cap", I64)
